@@ -183,6 +183,8 @@ def type_of_value(P, v):
 def _kterm(c, k):
     if isinstance(k, SymKey) and k.kname == c.kname:
         return k.term
+    if isinstance(k, SObj) and k.cls is not None and k.name is not None:
+        return obj_key(k, c.kname)          # a named input object used as a key: its identity
     raise Unsupported(f'key {k!r} used with a symbolic container of {c.kname} keys '
                       f'(declare the key as Key[{c.kname}] in the contract)')
 
@@ -672,10 +674,10 @@ def loop_rule(P, st, fr, it):
                 b[k] = fr.locals[k] = P.force(b[k])
         b.pop('done', None)
         names = [a.arg for a in inv.node.args.args]
-        miss = [n for n in names if n != 'done' and n not in b]
+        miss = [n for n in names if n not in ('done', 'old') and n not in b]
         if miss:
             raise InterpError(f'{inv.qualname}: parameters {miss} are not locals in scope at the loop')
-        return ex._call_spec(P, inv, b, {'done': done})
+        return ex._call_spec(P, inv, b, {'done': done, 'old': getattr(P, 'old', None)})
 
     # --- init
     done0 = 0 if is_seq else empty_set(S.kname)
